@@ -9,4 +9,6 @@ CONSTANTS
   Forge22 = {"to1d_resign_stranger"}
   Forge32 = {"resign_stranger"}
   MaxReq = 14
+  WithMutants = FALSE
+  Mutants = FALSE
 INVARIANTS Emit
